@@ -77,6 +77,8 @@ def _register_target(fn):
 
 
 def _base_name(b):
+    if isinstance(b, ast.Subscript):
+        return _base_name(b.value)          # Generic[K], Mapping[int, X], _Accumulator[int]: the class is the subscripted name
     if isinstance(b, ast.Name):
         return b.id
     if isinstance(b, ast.Attribute):
@@ -206,6 +208,21 @@ class Package:
                 todo.extend(local.get(b, b) for b in self.classes[n].bases)
         return out
 
+    BENIGN_BASES = {"object", "ABC", "abc.ABC", "Generic", "typing.Generic", "Protocol", "typing.Protocol", "NamedTuple", "typing.NamedTuple",
+                    "Enum", "IntEnum", "enum.Enum", "enum.IntEnum", "StrEnum", "enum.StrEnum", "Flag", "IntFlag", "np.ndarray", "numpy.ndarray",
+                    "ndarray", "Exception", "NotImplementedError", "ValueError", "KeyError", "AssertionError", "TypeError", "RuntimeError", "str", "int"}
+
+    def unknown_bases(self, name):
+        """Base classes along the MRO that the model knows nothing about (their methods would be invisible)."""
+        out = []
+        for c in self.mro(name):
+            ci = self.classes[c]
+            local = self.module_classes.get(ci.module, {})
+            for b in ci.bases:
+                if local.get(b, b) not in self.classes and b not in self.BENIGN_BASES:
+                    out.append(b)
+        return out
+
     def is_subclass(self, name, base):
         return base in self.mro(name)
 
@@ -250,10 +267,27 @@ class Package:
             return ci.props[attr]
         return None
 
+    def class_alias(self, name):
+        """A class known under `name`, directly or through `from .m import X as name` somewhere in the package."""
+        if name in self.classes:
+            return name
+        for rel, imps in sorted(self.module_imports.items()):
+            if name in imps:
+                leaf = imps[name].rsplit(".", 1)[-1]
+                if leaf in self.classes:
+                    return leaf
+        return None
+
     def require_class(self, name):
-        if name not in self.classes:
+        if self.class_alias(name) is None:
             raise AnalysisError("anchor vanished: class %s" % name)
-        return self.classes[name]
+        return self.classes[self.class_alias(name)]
+
+    def own_method_alias(self, clsname, attr):
+        c = self.class_alias(clsname)
+        if c is None:
+            raise AnalysisError("anchor vanished: class %s" % clsname)
+        return self.own_method(c, attr)
 
     def all_functions(self):
         """Yield (qualified name, FunctionDef) for every function / method / property in the package."""
